@@ -682,6 +682,33 @@ def keyfn(line):
     return (f[1],) + tuple(f[2:])
 
 
+def sweep_lines():
+    """deterministic: every cell of the 15x15 dispatch tables with equal, adjacent and rounding-critical values"""
+    out = []
+    vals = [(Fraction(1), Fraction(1), Fraction(2)), (Fraction(0), Fraction(0), Fraction(-1)),
+            (Fraction(2 ** 24 + 1), Fraction(2 ** 24), Fraction(2 ** 24 + 2)),
+            (Fraction(2 ** 53 + 1), Fraction(2 ** 53), Fraction(2 ** 53 + 2)),
+            (Fraction(2 ** 63), Fraction(2 ** 63 - 1), Fraction(2 ** 63 + 1)),
+            (Fraction(-(2 ** 63)), Fraction(-(2 ** 63) - 1), Fraction(-(2 ** 63) + 1)),
+            (Fraction(2 ** 64), Fraction(2 ** 64 - 1), Fraction(2 ** 64 + 1)), (Fraction(-1), Fraction(-1), Fraction(255))]
+
+    class NoRng:                      # render() without neighbours / random precision
+        def random(self):
+            return 0.0
+
+        def choice(self, xs):
+            return xs[0]
+    nr = NoRng()
+    for k1 in NUM_KINDS:
+        for k2 in NUM_KINDS:
+            for (a, b, c) in vals:
+                ops = [render(nr, a, k1), render(nr, b, k2), render(nr, c, k1)]
+                ops = [o for o in ops if o is not None]
+                if len(ops) >= 2:
+                    out.append("num\trel\t" + "\t".join(ops))
+    return sorted(set(out))
+
+
 def run(ctx):
     ctx.rule = ("pairs/triples of values around one boundary integer (0, ±2^k±d for k in 7..128) rendered in randomly "
                 "chosen numeric kinds (SmallInt/BigInt/Float/BigFloat/Float64/Float32/Int64..UInt8/UInt; float "
@@ -708,7 +735,8 @@ def run(ctx):
         return
     rng = ctx.rng
     lines = vlib.corpus_lines("C18")
-    n_num = ctx.n(12000, 400000)
+    lines += sweep_lines()
+    n_num = ctx.n(8000, 400000)
     for i in range(n_num):
         ops = gen_num_group(rng, 3 if i % 2 else 2, ORDER_KINDS if i % 3 == 0 else None)
         lines.append("num\trel\t" + "\t".join(ops))
